@@ -84,6 +84,27 @@ Section Assoc.
     destruct (f (k0, v0)); [rewrite lookup_cons, E|]; auto.
   Qed.
 
+  Lemma in_fst_filter k (f : str * V -> bool) m : In k (map fst (filter f m)) -> In k (map fst m).
+  Proof.
+    induction m as [|[k0 v0] m IH]; cbn [filter]; [auto|]. destruct (f (k0, v0)); cbn [map fst In]; tauto.
+  Qed.
+
+  Lemma NoDup_fst_filter (f : str * V -> bool) m : NoDup (map fst m) -> NoDup (map fst (filter f m)).
+  Proof.
+    induction m as [|[k0 v0] m IH]; cbn [filter map fst]; intro Hn; [constructor|].
+    inversion Hn as [|? ? Hk Hm]; subst.
+    destruct (f (k0, v0)); cbn [map fst]; [|auto].
+    constructor; [|auto]. intro X. apply Hk. eapply in_fst_filter; eauto.
+  Qed.
+
+  Lemma NoDup_fst_insert k v m : NoDup (map fst m) -> NoDup (map fst (insert k v m)).
+  Proof.
+    intro Hn. unfold insert, remove. cbn [map fst]. constructor; [|now apply NoDup_fst_filter].
+    clear Hn. induction m as [|[k0 v0] m IH]; cbn [filter fst]; [auto|].
+    destruct (str_eqb k0 k) eqn:E; cbn [negb]; [exact IH|]. cbn [map fst In].
+    intros [->|X]; [now rewrite str_eqb_refl in E|auto].
+  Qed.
+
   Lemma lookup_insert_eq k v m : lookup k (insert k v m) = Some v.
   Proof. unfold insert. now rewrite lookup_cons, str_eqb_refl. Qed.
 
@@ -1179,7 +1200,8 @@ Section Refine.
       update_referrers_index H parse_mt main user_mts limit skip_gc index_of S ex0 (g, n) rst subj ch
       = ((g', n'), rst, t, ROk) /\
       ts_step g g' (gen_index upd) old /\
-      index_state g' tag (if is_nil upd && negb skip_gc then None else Some (H (gen_index upd), upd)).
+      index_state g' tag (if is_nil upd && negb skip_gc then None else Some (H (gen_index upd), upd)) /\
+      NoDup (map fst (g_tags g')).
   Proof.
     intros Hi Hr Vs tag ER Vt Hp Hst Hjo Huniq Hch Hlim Hcol.
     set (j := gen_index upd).
@@ -1204,6 +1226,8 @@ Section Refine.
     rewrite Hrst in E2.
     assert (Gm2 : g_mans g2 = insert (H j) (mt_index, j) (g_mans g)).
     { change (g_mans g2) with (t_mans (store_of g2)). rewrite St2. reflexivity. }
+    assert (Hu2 : NoDup (map fst (g_tags g2))).
+    { change (g_tags g2) with (t_tags (store_of g2)). rewrite St2. cbn [t_tags]. now apply NoDup_fst_insert. }
     assert (Hi2 : ts_step g g2 j old).
     { split; [|split].
       - intros d' mt' c' L. rewrite Gm2 in L.
@@ -1221,7 +1245,7 @@ Section Refine.
       destruct (negb (is_nil upd) || skip_gc) eqn:Epush.
       + rewrite E2. destruct skip_gc eqn:Eg.
         * exists g2, n2, (t1 ++ t2). split; [reflexivity|]. split; [exact Hi2|].
-          rewrite andb_false_r. split; assumption.
+          rewrite andb_false_r. split; [split; assumption|exact Hu2].
         * destruct Hcol as [X|Hcol]; [discriminate|]. specialize (Hcol od l0 eq_refl).
           assert (Lod : lookup od (g_mans g2) = Some (mt_index, gen_index l0)).
           { change (g_mans g2) with (t_mans (store_of g2)). rewrite St2. cbn [t_mans].
@@ -1245,7 +1269,9 @@ Section Refine.
             rewrite (str_eqb_neq (H j) od) by (intro X; apply Hcol; now symmetry). cbn [negb].
             rewrite lookup_cons. now rewrite str_eqb_refl. }
           exists g3, (n2 + 1), (t1 ++ t2 ++ t3). split; [reflexivity|]. split; [exact Hi3|].
-          rewrite orb_false_r in Epush. apply negb_true_iff in Epush. rewrite Epush. cbn [andb]. split; assumption.
+          rewrite orb_false_r in Epush. apply negb_true_iff in Epush. rewrite Epush. cbn [andb].
+          split; [split; assumption|].
+          change (g_tags g3) with (t_tags (store_of g3)). rewrite St3. cbn [t_tags]. now apply NoDup_fst_filter.
       + (* nothing left and the old index is garbage-collected: only the delete *)
         apply orb_false_iff in Epush as [En Eg]. rewrite Eg. apply negb_false_iff in En.
         assert (upd = []) as Eu by (destruct upd; [reflexivity|discriminate]).
@@ -1268,16 +1294,80 @@ Section Refine.
             apply str_eqb_spec in Ek. subst k. now apply lookup_filter_notin.
           - destruct (negb (str_eqb v od)); [rewrite lookup_cons, Ek|]; auto. }
         exists g3, (n1 + 1), (t1 ++ [] ++ t3). split; [reflexivity|]. split; [exact Hi3|].
-        rewrite En. cbn [negb andb]. exact Lt3.
+        rewrite En. cbn [negb andb]. split; [exact Lt3|].
+        change (g_tags g3) with (t_tags (store_of g3)). rewrite St3. cbn [t_tags]. now apply NoDup_fst_filter.
     - destruct Hold as [-> ->]. rewrite Hch. fold j.
       destruct (negb (is_nil upd) || skip_gc) eqn:Epush.
       + rewrite E2. exists g2, n2, (t1 ++ t2). split; [reflexivity|]. split; [exact Hi2|].
         assert ((is_nil upd && negb skip_gc) = false) as -> by (destruct (is_nil upd), skip_gc; cbn in *; congruence).
-        split; assumption.
+        split; [split; assumption|exact Hu2].
       + apply orb_false_iff in Epush as [En Eg]. apply negb_false_iff in En.
         assert (upd = []) as Eu by (destruct upd; [reflexivity|discriminate]).
         exists g, n1, (t1 ++ []). split; [reflexivity|]. split; [exact Hi0|].
-        rewrite En, Eg. cbn [negb andb]. exact Hst.
+        rewrite En, Eg. cbn [negb andb]. split; [exact Hst|exact Huniq].
+  Qed.
+
+  (* ---- lifted to every SEQUENCE of referrer changes of one subject (pushes and deletes of
+     manifests with that subject, in any order): the index evolves as applyReferrerChanges says ---- *)
+  Fixpoint run_changes (s : S) (rst : rstate) (subj : desc) (chs : list rchange) : S * list result :=
+    match chs with
+    | [] => (s, [])
+    | ch :: r =>
+        let '(s1, rst1, _, res) :=
+          update_referrers_index H parse_mt main user_mts limit skip_gc index_of S ex0 s rst subj ch in
+        let '(s2, rs) := run_changes s1 rst1 subj r in (s2, res :: rs)
+    end.
+
+  Definition ix_list (st : option (str * list desc)) : list desc :=
+    match st with Some (_, l) => l | None => [] end.
+  Definition ix_post (upd : list desc) : option (str * list desc) :=
+    if is_nil upd && negb skip_gc then None else Some (H (gen_index upd), upd).
+  (* the specification: what the referrers tag points to after the changes *)
+  Fixpoint spec_changes (st : option (str * list desc)) (chs : list rchange) : option (str * list desc) :=
+    match chs with
+    | [] => st
+    | ch :: r => match apply_change (ix_list st) (Some ch) with
+                 | Some upd => spec_changes (ix_post upd) r
+                 | None => spec_changes st r
+                 end
+    end.
+  (* side conditions, per step: the change is effective, the index read decodes, the new index fits
+     the limit and does not collide with the old one *)
+  Fixpoint changes_ok (st : option (str * list desc)) (chs : list rchange) : Prop :=
+    match chs with
+    | [] => True
+    | ch :: r => exists upd, apply_change (ix_list st) (Some ch) = Some upd /\
+                 json_ok_st st /\ len (gen_index upd) <= limit /\
+                 (skip_gc = true \/ forall od l0, st = Some (od, l0) -> od <> H (gen_index upd)) /\
+                 changes_ok (ix_post upd) r
+    end.
+
+  Theorem tag_schema_changes rst subj chs : forall g n st,
+    minv g -> rst_ok rst ->
+    valid_digest (d_dg subj) = true ->
+    let tag := ref_tag (d_dg subj) in
+    resolve_ref main tag = Some tag -> valid_digest tag = false ->
+    (p_clen p = true \/ p_dighdr p = true) ->
+    index_state g tag st -> NoDup (map fst (g_tags g)) ->
+    changes_ok st chs ->
+    exists g' n',
+      run_changes (g, n) rst subj chs = ((g', n'), map (fun _ => ROk) chs) /\
+      minv g' /\ index_state g' tag (spec_changes st chs) /\ NoDup (map fst (g_tags g')) /\
+      (json_ok_st (spec_changes st chs) ->
+       exists n'' t', tag_schema_referrers H parse_mt main user_mts limit index_of S ex0 (g', n') subj
+                      = ((g', n''), t', RDescs (clean_refs [] (ix_list (spec_changes st chs))))).
+  Proof.
+    induction chs as [|ch chs IH]; intros g n st Hi Hr Vs tag ER Vt Hp Hst Hu Hok.
+    - exists g, n. cbn [run_changes map spec_changes].
+      split; [reflexivity|]. split; [exact Hi|]. split; [exact Hst|]. split; [exact Hu|].
+      intro Hj. apply (tag_schema_read g n subj st Hi Vs ER Vt Hp Hst Hj).
+    - destruct Hok as (upd & Hch & Hjo & Hlim & Hcol & Hrest).
+      destruct (tag_schema_update_m g n rst subj st ch upd Hi Hr Vs ER Vt Hp Hst Hjo Hu Hch Hlim Hcol)
+        as (g1 & n1 & t1 & E1 & St1 & Ist1 & Hu1).
+      assert (Hi1 : minv g1) by exact (ts_step_minv _ _ _ _ Hi Hlim St1).
+      destruct (IH g1 n1 (ix_post upd) Hi1 Hr Vs ER Vt Hp Ist1 Hu1 Hrest) as (g' & n' & E & Hi' & Ist' & Hu' & R).
+      exists g', n'. cbn [run_changes map spec_changes]. rewrite E1, E, Hch.
+      split; [reflexivity|]. split; [exact Hi'|]. split; [exact Ist'|]. split; [exact Hu'|exact R].
   Qed.
 
   Lemma tag_schema_update g n rst subj old ch upd :
@@ -1299,7 +1389,7 @@ Section Refine.
   Proof.
     intros Hi Hr Vs tag ER Vt Hp Hst Hjo Hju Huniq Hch Hlim Hcol.
     destruct (tag_schema_update_m g n rst subj old ch upd (inv_minv _ Hi) Hr Vs ER Vt Hp Hst Hjo Huniq Hch Hlim Hcol)
-      as (g' & n' & t & E & St & Ist).
+      as (g' & n' & t & E & St & Ist & _).
     exists g', n', t. split; [exact E|]. split; [eapply ts_step_inv; eauto|].
     assert (Hjp : json_ok_st (if is_nil upd && negb skip_gc then None else Some (H (gen_index upd), upd)))
       by (destruct (is_nil upd && negb skip_gc); [exact I|exact Hju]).
@@ -1418,7 +1508,7 @@ Section Refine.
     assert (Hch : apply_change (match old with Some (_, l) => l | None => [] end) (Some (RAdd d)) = Some upd).
     { fold l. unfold apply_change. now rewrite Hnew. }
     destruct (tag_schema_update_m g1 n1 RSUnsupported sj old (RAdd d) upd Hi1 Hr1 Vs ER Vt Hp Hst1 Hjo Hu1 Hch Hlim Hcol)
-      as (g' & n' & t2 & E2 & St2 & Ist).
+      as (g' & n' & t2 & E2 & St2 & Ist & Hu').
     assert (Hi' : minv g') by (eapply ts_step_minv; eauto).
     assert (Nn : is_nil upd = false) by (unfold upd; destruct (clean_refs [] l); reflexivity).
     rewrite Nn in Ist. cbn [andb] in Ist.
@@ -1479,7 +1569,7 @@ Section Refine.
     assert (Hcol' : skip_gc = true \/ forall od' l0, Some (od, l) = Some (od', l0) -> od' <> H (gen_index upd)).
     { destruct Hcol as [X|X]; [now left|right]. intros od' l' Y. injection Y as <- <-. exact X. }
     destruct (tag_schema_update_m g n2 RSUnsupported sj (Some (od, l)) (RRemove d) upd Hi Hr1 Vs ER Vt Hp Hst Hjo Hu Hch Hlim Hcol')
-      as (g3 & n3 & t3 & E3 & St3 & Ist).
+      as (g3 & n3 & t3 & E3 & St3 & Ist & Hu3).
     assert (Hi3 : minv g3) by exact (ts_step_minv _ _ _ _ Hi Hlim St3).
     destruct St3 as (_ & _ & K3).
     assert (L3 : lookup (d_dg d) (g_mans g3) = Some (d_mt d, c)).
@@ -1764,4 +1854,26 @@ Proof.
   - constructor.
   - right. discriminate.
   - exists g', n', t. split; [exact E|]. split; [exact Hi|]. split; [exact Ist|]. exact R.
+Qed.
+
+(* the side conditions of tag_schema_changes are satisfiable: two referrers added, the first removed *)
+Definition sat_a := mkDesc mt_oci_manifest zero_digest 3.
+Definition sat_b := mkDesc mt_oci_manifest zero_digest 4.
+Definition sat_changes := [RAdd sat_a; RAdd sat_b; RRemove sat_a].
+Definition sat_index_of2 (c : str) : option (list desc) :=
+  if str_eqb c (gen_index [sat_a]) then Some [sat_a]
+  else if str_eqb c (gen_index [sat_a; sat_b]) then Some [sat_a; sat_b]
+  else if str_eqb c (gen_index [sat_b]) then Some [sat_b] else Some [].
+Lemma tag_schema_changes_satisfiable :
+  changes_ok w_H w_limit true sat_index_of2 None sat_changes /\
+  spec_changes w_H true None sat_changes = Some (w_H (gen_index [sat_b]), [sat_b]) /\
+  json_ok_st sat_index_of2 (spec_changes w_H true None sat_changes).
+Proof.
+  split; [|split; vm_compute; reflexivity].
+  unfold sat_changes. cbn [changes_ok].
+  exists [sat_a]. split; [reflexivity|]. split; [exact I|]. split; [vm_compute; discriminate|]. split; [now left|].
+  exists [sat_a; sat_b]. split; [vm_compute; reflexivity|]. split; [vm_compute; reflexivity|].
+  split; [vm_compute; discriminate|]. split; [now left|].
+  exists [sat_b]. split; [vm_compute; reflexivity|]. split; [vm_compute; reflexivity|].
+  split; [vm_compute; discriminate|]. split; [now left|]. exact I.
 Qed.
